@@ -62,7 +62,7 @@ package sourcewalk
 // entity annotation.
 //@ func (*entityNode).acceptState
 //@   requires ent != nil && ent.Schema != nil && visitor != nil
-//@   assert at newObjectSchemaNode#0 shape: arg2 != nil && arg2.Name == camel(ent.Schema.Name + "State") && arg2.Entity != nil && arg2.Entity.Entity == ent.name && arg2.Entity.Part == schema_j5pb.EntityPart_STATE && len(arg2.Properties) == 4
+//@   assert at newObjectSchemaNode#0 shape: arg2 != nil && arg2.Name == comp(ent, "State") && arg2.Entity != nil && arg2.Entity.Entity == ent.name && arg2.Entity.Part == schema_j5pb.EntityPart_STATE && len(arg2.Properties) == 4
 //@   assert at newObjectSchemaNode#0 names: arg2.Properties[0].Name == "metadata" && arg2.Properties[1].Name == "keys" && arg2.Properties[2].Name == "data" && arg2.Properties[3].Name == "status"
 //@   assert at newObjectSchemaNode#0 required: arg2.Properties[0].Required && arg2.Properties[1].Required && arg2.Properties[2].Required && arg2.Properties[3].Required
 //@   assert at newObjectSchemaNode#0 numbers: len(arg2.Properties[0].ProtoField) == 1 && arg2.Properties[0].ProtoField[0] == 1 && len(arg2.Properties[1].ProtoField) == 1 && arg2.Properties[1].ProtoField[0] == 2
@@ -76,10 +76,10 @@ package sourcewalk
 //@ func (*entityNode).acceptEventOneof
 //@   requires ent != nil && ent.Schema != nil && visitor != nil && len(ent.Schema.Events) < 2147483647
 //@   requires forall i int {ent.Schema.Events[i]} :: 0 <= i && i < len(ent.Schema.Events) ==> ent.Schema.Events[i] != nil && ent.Schema.Events[i].Def != nil
-//@   assert at newOneofNode#0 one: arg2 != nil && arg2.Def != nil && arg2.Def.Name == camel(ent.Schema.Name + "EventType") && len(arg2.Def.Properties) == len(ent.Schema.Events) && len(arg2.Schemas) == len(ent.Schema.Events)
+//@   assert at newOneofNode#0 one: arg2 != nil && arg2.Def != nil && arg2.Def.Name == comp(ent, "EventType") && len(arg2.Def.Properties) == len(ent.Schema.Events) && len(arg2.Schemas) == len(ent.Schema.Events)
 //@   assert at newOneofNode#0 each: forall i int {arg2.Def.Properties[i]} :: 0 <= i && i < len(ent.Schema.Events) ==> arg2.Def.Properties[i] != nil
 //@   |   && arg2.Def.Properties[i].Name == lowerCamel(ent.Schema.Events[i].Def.Name) && len(arg2.Def.Properties[i].ProtoField) == 1 && arg2.Def.Properties[i].ProtoField[0] == i + 1
-//@   loop 0 invariant eventOneof != nil && eventOneof.Name == camel(ent.Schema.Name + "EventType") && len(eventOneof.Properties) == $iter && len(eventObjects) == $iter
+//@   loop 0 invariant eventOneof != nil && eventOneof.Name == comp(ent, "EventType") && len(eventOneof.Properties) == $iter && len(eventObjects) == $iter
 //@   loop 0 invariant forall i int {eventOneof.Properties[i]} :: 0 <= i && i < $iter ==> eventOneof.Properties[i] != nil
 //@   |   && eventOneof.Properties[i].Name == lowerCamel(ent.Schema.Events[i].Def.Name) && len(eventOneof.Properties[i].ProtoField) == 1 && eventOneof.Properties[i].ProtoField[0] == i + 1
 //@   loop 0 invariant forall i int {ent.Schema.Events[i]} :: 0 <= i && i < len(ent.Schema.Events) ==> ent.Schema.Events[i] != nil && ent.Schema.Events[i].Def != nil && ent.Schema.Events[i].Def.Name == old(ent.Schema.Events[i].Def.Name)
@@ -89,7 +89,7 @@ package sourcewalk
 // entity annotation; the oneof is referred to by the name the expansion gives it.
 //@ func (*entityNode).acceptEvent
 //@   requires ent != nil && ent.Schema != nil && visitor != nil
-//@   assert at newObjectSchemaNode#0 shape: arg2 != nil && arg2.Name == camel(ent.Schema.Name + "Event") && arg2.Entity != nil && arg2.Entity.Entity == ent.name && arg2.Entity.Part == schema_j5pb.EntityPart_EVENT && len(arg2.Properties) == 3
+//@   assert at newObjectSchemaNode#0 shape: arg2 != nil && arg2.Name == comp(ent, "Event") && arg2.Entity != nil && arg2.Entity.Entity == ent.name && arg2.Entity.Part == schema_j5pb.EntityPart_EVENT && len(arg2.Properties) == 3
 //@   assert at newObjectSchemaNode#0 names: arg2.Properties[0].Name == "metadata" && arg2.Properties[1].Name == "keys" && arg2.Properties[2].Name == "event"
 //@   |   && arg2.Properties[0].Required && arg2.Properties[1].Required && arg2.Properties[2].Required
 //@   assert at newObjectSchemaNode#0 numbers: len(arg2.Properties[0].ProtoField) == 1 && arg2.Properties[0].ProtoField[0] == 1 && len(arg2.Properties[1].ProtoField) == 1 && arg2.Properties[1].ProtoField[0] == 2 && len(arg2.Properties[2].ProtoField) == 1 && arg2.Properties[2].ProtoField[0] == 3
